@@ -166,6 +166,8 @@ def main(argv=None):
             for e in res.get("events", []):
                 print(e)
             print(json.dumps(res.get("blocked"), indent=1))
+            for tb in res.get("thread_tracebacks", []):
+                print("THREAD EXCEPTION:\n" + tb)
         if same_sig:
             print(f"VIOLATION property={prop} replay={a.replay}")
             return 1
